@@ -479,6 +479,12 @@ func runR_C16(c *Ctx) {
 				continue
 			}
 			fn := rs.Funcs[0]
+			// template identifiers (f0, f1, err, …) referenced under user-named binders can be captured by the user's names
+			if p != "toerror" {
+				if !reportIssues(c, rs, "R14", "", hygieneIssues(rs)) {
+					continue
+				}
+			}
 			// only the error forms: the function (or the closure it returns) has a trailing error result
 			var issues []sideIssue
 			switch p {
